@@ -81,6 +81,15 @@ class C11(Check):
             beh = {'boom': {'kind': 'raise_exc', 'exc': exc, 'marker': 'MARKER-c11-zq'}, 'boom2': {'kind': 'raise_exc', 'exc': exc, 'marker': 'MARKER-c11-zq'}}
             out.append({'kind': 'server', 'max_batch_size': None, 'behaviours': beh, 'middlewares': [], 'handlers': None,
                         'text': t([{'jsonrpc': '2.0', 'id': 1, 'method': 'boom'}, {'jsonrpc': '2.0', 'id': 2, 'method': 'boom2'}, {'jsonrpc': '2.0', 'method': 'boom'}])})
+        # middleware stacks and handler tables (generic handlers that replace the code + per-code handlers for old and new codes)
+        batch = t([{'jsonrpc': '2.0', 'id': 1, 'method': 'nope'}, {'jsonrpc': '2.0', 'method': 'boom'}, {'jsonrpc': '2.0', 'id': 2, 'method': 'echo', 'params': [1]},
+                   {'jsonrpc': '2.0', 'id': 3, 'method': 'echo'}, {'jsonrpc': '2.0', 'id': 4, 'method': 'bad.get'}])
+        for generic in ([{'kind': 'replace'}], [{'kind': 'annotate'}, {'kind': 'replace'}], [{'kind': 'identity'}], []):
+            for mws in ([], [{'kind': 'pass'}, {'kind': 'rewrite-response'}], [{'kind': 'rewrite-request', 'method': 'nope', 'params': []}, {'kind': 'pass'}], [{'kind': 'short'}]):
+                out.append({'kind': 'server', 'max_batch_size': None, 'behaviours': {}, 'middlewares': mws, 'text': batch,
+                            'handlers': {'generic': generic, 'codes': [[-32601, [{'kind': 'annotate'}]], [-32000, [{'kind': 'replace'}]], [-32602, [{'kind': 'annotate'}]],
+                                                                     [-32603, [{'kind': 'identity'}]], [c12.stack.REPLACE_BASE, [{'kind': 'annotate'}]],
+                                                                     [c12.stack.REPLACE_BASE + 1, [{'kind': 'annotate'}]]]}})
         return out
 
     def run_case(self, spec: Any) -> Outcome:
